@@ -279,8 +279,40 @@ class Resolver:
             self._memo_callees[key] = hit
         return hit
 
+    def _local_imports(self, fi: FuncInfo) -> dict[str, str]:
+        """Names bound by import statements inside the function (and its
+        enclosing functions): local name -> qualified target."""
+        key = ("imports", fi.qualname)
+        hit = self._memo_attr.get(key)
+        if hit is not None:
+            return hit
+        out: dict[str, str] = {}
+        f: FuncInfo | None = fi
+        while f is not None:
+            for n in own_nodes(f.node):
+                if isinstance(n, ast.Import):
+                    for a in n.names:
+                        out.setdefault(a.asname or a.name.split(".")[0], a.name if a.asname else a.name.split(".")[0])
+                elif isinstance(n, ast.ImportFrom) and n.module:
+                    for a in n.names:
+                        out.setdefault(a.asname or a.name, f"{n.module}.{a.name}")
+            f = f.parent
+        self._memo_attr[key] = out
+        return out
+
     def _callees(self, fi, call, recv_cls):
         f = call.func
+        li = self._local_imports(fi)
+        d0 = dotted(f)
+        if li and d0 is not None and d0.split(".")[0] in li:
+            head, _, rest = d0.partition(".")
+            q = li[head] + ("." + rest if rest else "")
+            if q.startswith(self.repo.package):
+                mod, _, name = q.rpartition(".")
+                r = self.repo.resolve(mod, name) if mod in self.repo.modules else None
+                if r:
+                    return self._target_of_qual(r, d0)
+            return [], q
         mi = fi.module
         # super().m(...)
         if (
